@@ -1,5 +1,6 @@
 import PugModel.Tpl.Exec
 import PugProofs.C02.IfDoc
+import PugProofs.C02.EachDoc
 import PugModel.Gen.Tables
 /-!
 # C02 — conditionals, case, each and while select and repeat exactly as pug prescribes
@@ -328,5 +329,48 @@ theorem C02_if_end_to_end (o : Std.TreeMap.Raw String Lean.Json) (svs : SEnv) (h
     show walkList (99999998 + 1) _ [] _ = _
     simp [walkList, pure, StateT.pure, Except.pure]
   simp only [renderModel, hc, StateT.run, hrun, hout, String.empty_append]
+
+/-! ## a loop through the pipeline -/
+
+open Pug.JS Pug.Props.C01S Pug.Props.C06S Pug.Props.C02D Pug.Props.C02E Pug.Driver in
+/-- **C02 (each, through transpiler, merge, trim, nesting and executor).** Document: `each v in x` over ANY static body, `x` any
+variable that is not a template function. The transpiled, merged, trimmed and nested template is one `range` node over the body;
+and from EVERY execution state in which `x` holds an array (whatever its elements, however many), executing it prints the body -
+its first text left-trimmed at the loop marker, nothing else changed - exactly once per element, in one piece, and leaves the heap
+as it was. -/
+theorem C02_each_end_to_end (x v : String) (kids : List Node)
+    (hx : (engineFuncs ++ ([] : List String)).contains x = false) (hk : staticListF 99998 kids = true) :
+    ∃ A, Plain A ∧ fragsStr A = serListF 99998 kids ∧
+      compileDoc { funcs := engineFuncs ++ [], parserFuncs := engineFuncs ++ [] ++ builtinNames } [.each v "" (.ident x) kids] =
+        .ok { main := [.range [v] (.var x) (nodesOf (trimHead (mergeTexts A)))], defs := [] } ∧
+      ∀ (st : St) (a : Nat) (fuel : Nat),
+        lookupVar (st.vars ++ [("$" ++ v, Val.invalid)]) ("$" ++ x) = .arr a →
+        (st.heap.getArr a).length + A.length + 6 < fuel →
+        ∃ st', walkList fuel { defs := [] } [.range [v] (.var x) (nodesOf (trimHead (mergeTexts A)))] st = .ok ((), st') ∧
+          st'.out = st.out ++ rep (fragsStr (trimHead (mergeTexts A))) (st.heap.getArr a).length ∧ st'.heap = st.heap := by
+  obtain ⟨A, _, a2, a3, hc⟩ := compileDoc_each
+    { funcs := engineFuncs ++ [], parserFuncs := engineFuncs ++ [] ++ builtinNames } rfl x v hx kids hk
+  refine ⟨A, a2, a3, hc, ?_⟩
+  intro st a fuel hlook hf
+  have mA := merge_plain A.length A (Nat.le_refl _) a2
+  have lA := merge_length A.length A (Nat.le_refl _)
+  have tlA : (trimHead (mergeTexts A)).length = (mergeTexts A).length := by
+    cases mergeTexts A with
+    | nil => rfl
+    | cons f r => cases f <;> rfl
+  obtain ⟨f, rfl⟩ : ∃ f, fuel = f + 3 := ⟨fuel - 3, by omega⟩
+  have hitems := walkItems_static { defs := [] } v (trimHead (mergeTexts A)) (trimHead_plain mA.1)
+    ((st.heap.getArr a).zipIdx.map fun (p : Val × Nat) => (Val.int p.2, p.1)) (f + 1)
+    { st with vars := setVarIn (st.vars ++ [("$" ++ v, Val.invalid)]) ("$" ++ v) (.arr a) } (by simp; omega)
+  obtain ⟨st', h1, h2, h3⟩ := hitems
+  refine ⟨st', ?_, by simpa using h2, by simpa using h3⟩
+  rw [walkList]
+  have hw : walk (f + 2) { defs := [] } (.range [v] (.var x) (nodesOf (trimHead (mergeTexts A)))) st = .ok ((), st') := by
+    simp only [walk, evalExpr, rangeKind, bind, StateT.bind, modify, modifyGet, MonadStateOf.modifyGet, StateT.modifyGet, get,
+      getThe, MonadStateOf.get, StateT.get, getHeap, pure, StateT.pure, Except.pure, Except.bind, List.map_cons, List.map_nil,
+      List.foldl_cons, List.foldl_nil, hlook]
+    exact h1
+  simp only [bind, StateT.bind, hw, Except.bind]
+  simp [walkList, pure, StateT.pure, Except.pure]
 
 end Pug.Props.C02
